@@ -11,7 +11,7 @@ pub type Label {
 
 /// dit bonjour
 pub fn greet(name) {
-  let msg = "héllo → " <> name // cómment
+  let msg = "héllo \\ \n→" <> name // cómment
   io.println(msg)
   case Tag(nom: msg) {
     Tag(nom: n) -> Tag(nom: n)
